@@ -185,6 +185,12 @@ def _try_replay(ix, reg, qualname, obl, res):
         return dict(reproduced=False, why="not a postcondition obligation")
     data = {k: extract(reg, m, v) for k, v in obl.inputs.items()}
     doc = dict(function=qualname, inputs=data, obligation=obl.name)
+    hook = c.extra.get("native_replay") if c is not None else None
+    if hook is not None:
+        # functions whose contract speaks about ghost state (a stub server's request log, a generator's output): the contract module supplies the
+        # native harness - it runs the REAL function on the model's inputs and compares with an independently written expectation
+        doc.update(hook(data, obl.name))
+        return doc
     outcome = run_native(ix, reg, qualname, data)
     doc.update(outcome["doc"])
     cl, sub = find_clause(c, obl.name)
@@ -316,6 +322,12 @@ def run_replay_file(path):
     import contracts
     contracts.load_all()
     ix = RepoIndex()
+    c = REG.get(rep["function"])
+    if c is not None and c.extra.get("native_replay") is not None:
+        out = c.extra["native_replay"](rep["inputs"], doc.get("obligation", ""))
+        print(json.dumps(out, indent=1, default=str))
+        print("REPRODUCED" if out.get("reproduced") else "NOT-REPRODUCED (the clause holds on this tree)")
+        return 1 if out.get("reproduced") else 0
     out = run_native(ix, REG, rep["function"], rep["inputs"])
     print(json.dumps(out["doc"], indent=1, default=str))
     return 0
